@@ -1758,15 +1758,19 @@ fn hub_stream(ctx: &mut Ctx) {
 /// HUGE vertex weights: a base weight B = 2^53..2^60 on a few vertices of every part plus small
 /// offsets, light vertices around them, `max_imbalance: None` (the cap is the exact heaviest input part,
 /// the rooms `max_pw - pw` are small integers: everything is exact in the clean code, the oracle has no
-/// slack). 1-3 threads; sequential and controlled runs are compared with the model.
+/// slack). 1-3 threads, every fourth case 4/8/16 (part weight x tasks beyond the range of i64, total below
+/// 2^62); sequential and controlled runs are compared with the model.
 fn huge_stream(ctx: &mut Ctx) {
     for c in 0..ctx.budget(14, 120) {
         let e = 53 + (c % 8) as u32;
         let b = 1i64 << e;
-        let threads = 1 + c % 3;
+        // every fourth case: 4, 8 or 16 workers, so that part weight x tasks exceeds the range of
+        // i64 although the total fits (the regime of K9, repaired in /repo 192ea31: the end-of-pass
+        // merge must not form the sum of the tasks' arrays)
+        let threads = if c % 4 == 3 { [4usize, 8, 16][(c / 4) % 3] } else { 1 + c % 3 };
         let k = 2 + ctx.rng.usize(2);
-        // heavy vertices per part: part weight x threads must stay below 2^62 (merge formula)
-        let m_max = ((1i64 << 61) / b / (k as i64 * 3)).clamp(1, 3) as usize;
+        // heavy vertices per part: the TOTAL must stay below 2^62 (the op parser's limit)
+        let m_max = ((1i64 << 61) / b / k as i64).clamp(1, 3) as usize;
         let m = 1 + ctx.rng.usize(m_max);
         let light = 8 + ctx.rng.usize(24);
         let n = k * m + light;
@@ -1797,9 +1801,11 @@ fn huge_stream(ctx: &mut Ctx) {
         if threads == 1 {
             run_op(ctx, &inst.seq_op());
         } else {
-            let sseed = ctx.rng.next();
-            let d = run_controlled(&inst, Policy::Random { rng: Rng::new(sseed), kind: (c % 3) as u8, last: None });
-            run_op(ctx, &inst.ctl_op(&d.sched));
+            if threads <= 8 {
+                let sseed = ctx.rng.next();
+                let d = run_controlled(&inst, Policy::Random { rng: Rng::new(sseed), kind: (c % 3) as u8, last: None });
+                run_op(ctx, &inst.ctl_op(&d.sched));
+            }
             run_op(ctx, &inst.free_op());
         }
     }
